@@ -579,3 +579,77 @@ _targets_before_observers = targets
 def targets():      # noqa: F811
     from . import purity
     return _targets_before_observers() + [purity.target_observers(["circuit/base", "circuit/series", "circuit/parallel", "circuit/circuit", "circuit/circuit_builder", "circuit/transmission_line_model"], "circuit observers keep no state")]
+
+
+# ------------------------------------------------------------------------------------------------ Container.__init__: own sub-circuits
+_targets_before_container_init = targets
+
+
+def target_container_init():
+    """Container.__init__ on recording stand-ins: every sub-circuit key of the class gets an entry; a key the caller did not give
+    gets deepcopy(default) -- a NEW object, never the class's own default connection (two containers, or a container and the class,
+    must not share state) -- or None where the default is open; a key the caller gave gets the caller's connection (or None) as it
+    is, and anything that is neither a Connection nor None is refused with TypeError; the parameters go to Element.__init__."""
+    from pyvc import overload as O
+    BASE = "circuit/base"
+
+    def run(sess: Session):
+        class Connection:
+            def __init__(self, name):
+                self.name = name
+
+        D1, D2, U1 = Connection("default X_1"), Connection("default Zeta"), Connection("given Zeta")
+        defaults = {"X_1": D1, "X_2": None, "Zeta": D2}
+        for given in ({}, {"Zeta": U1}, {"X_1": None}, {"X_2": U1, "R": 5.0}, {"Zeta": 3.0}):
+            copies, supers = [], []
+
+            def deepcopy(x, memo=None):
+                c = Connection(f"deepcopy of {x.name}")
+                copies.append((x, c))
+                return c
+
+            class Sup:
+                def __init__(self, **kw):
+                    supers.append(kw)
+            ns = {"deepcopy": deepcopy, "Connection": Connection, "super": lambda *a: Sup.__new__(Sup), "isinstance": isinstance}
+            O.load(BASE, ["Container.__init__", "Container.get_default_subcircuits"], ns)
+            init, gds = ns["__init__"], ns["get_default_subcircuits"]
+
+            class Me:
+                _subcircuit_default_value = dict(defaults)
+                get_default_subcircuits = classmethod(gds)
+            me = Me.__new__(Me)
+            tag = f" [given {sorted(given)}]"
+            bad_value = any(k in defaults and not (v is None or isinstance(v, Connection)) for k, v in given.items())
+            try:
+                init(me, **given)
+                raised = None
+            except TypeError as ex:
+                raised = ex
+            if bad_value:
+                sess.check("post", [], z3.BoolVal(raised is not None), 0, label="a sub-circuit that is neither a Connection nor None is refused with TypeError" + tag)
+                continue
+            sess.check("post", [], z3.BoolVal(raised is None), 0, label="Container.__init__ accepts connections and None" + tag)
+            if raised is not None:
+                continue
+            got = getattr(me, "_subcircuit_value", None)
+            sess.check("post", [], z3.BoolVal(isinstance(got, dict) and sorted(got) == sorted(defaults)), 0, label="every sub-circuit key of the class gets an entry" + tag)
+            if not isinstance(got, dict):
+                continue
+            for k, dflt in defaults.items():
+                v = got.get(k, "missing")
+                if k in given:
+                    sess.check("post", [], z3.BoolVal(v is given[k]), 0, label=f"{k}: the caller's connection is stored as it is" + tag)
+                elif dflt is None:
+                    sess.check("post", [], z3.BoolVal(v is None), 0, label=f"{k}: open by default stays open" + tag)
+                else:
+                    fresh_copy = any(c is v and x is dflt for x, c in copies)
+                    sess.check("post", [], z3.BoolVal(fresh_copy and v is not dflt), 0, label=f"{k}: a container gets its OWN deep copy of the default connection, not the class's object" + tag)
+            sess.check("post", [], z3.BoolVal(Me._subcircuit_default_value == defaults and all(Me._subcircuit_default_value[k] is defaults[k] for k in defaults)), 0,
+                       label="the class defaults are left as they were" + tag)
+            sess.check("post", [], z3.BoolVal(len(supers) <= 1), 0, label="Element.__init__ is reached through super() at most once" + tag)
+    return (f"{BASE}:Container.__init__", BASE, "Container.__init__", run)
+
+
+def targets():      # noqa: F811
+    return _targets_before_container_init() + [target_container_init()]
